@@ -601,4 +601,35 @@ Section AdjCore.
       destruct (Hadj gy (zeros (tsize sk)) Hgy (repeat_length _ _)) as (_ & A & _). exact A.
     - constructor; [apply gatherN_length|constructor].
   Qed.
+
+  (* ---------------------------------------------------------------- unary elementwise kernels with a constant
+     (CPUDEV_FW_X_CONST / CPUDEV_BW_X_CONST):  y[i] = f(x[i]),  gx[i] += g(gy[i]);  tangent c(dx[i]) *)
+  Definition un_desc (s : tshape) (f c g : R -> R) : opdesc :=
+    {| d_args := [s]; d_rets := [s]; d_ok := true; d_nop := false;
+       d_fw := fun xs => [un_eval R rO f (tsize s) (hd [] xs)];
+       d_jvp := fun xs dxs => [un_eval R rO c (tsize s) (hd [] dxs)];
+       d_bw := fun xs ys gys =>
+         [incr_run R rO radd (map (fun e => (fst e, g (nth (snd (snd e)) (hd [] gys) rO))) (identity_pairs (tsize s)))
+                   (zeros (tsize s))] |}.
+  Lemma un_LA s f c g : (forall u d, rmul u (c d) = rmul (g u) d) -> desc_LA (un_desc s f c g).
+  Proof.
+    intros Hc Hok xs dxs gys Hx Hdx Hgy. cbn [un_desc d_args d_rets d_ok d_nop d_fw d_jvp d_bw] in *.
+    apply F2_one in Hdx. destruct Hdx as (dx & -> & Hdx). apply F2_one in Hgy. destruct Hgy as (gy & -> & Hgy).
+    cbn [hd]. unfold sized in *. set (n := tsize s) in *.
+    assert (Hb : Forall (fun e : nat * R => fst e < n)
+                   (map (fun e : nat * (nat * nat) => (fst e, g (nth (snd (snd e)) gy rO))) (identity_pairs n))).
+    { rewrite Forall_map. cbn [fst]. apply Forall_forall. intros [d [k s0]] Hin. apply identity_spec in Hin. cbn [fst]. tauto. }
+    cbv zeta. split; [|split].
+    - cbn [OpFamily.dots]. rewrite (incr_dot _ n dx Hb Hdx). unfold un_eval.
+      rewrite seq_dot0 by (rewrite Hgy; apply identity_sequential). rewrite map_map. cbn [fst snd].
+      f_equal. apply sumR_ext. intros [d [k s0]] Hin. apply identity_spec in Hin. destruct Hin as (_ & _ & ->). cbn [fst snd].
+      symmetry. apply Hc.
+    - intros _. constructor; [|constructor]. unfold sized. rewrite incr_run_length', repeat_length; [reflexivity|]. rewrite repeat_length. exact Hb.
+    - constructor; [|constructor]. unfold sized, un_eval, identity_pairs, range. rewrite !map_length, seq_length. reflexivity.
+  Qed.
+  Lemma vneg_adj n : adj_of n n vneg vneg.
+  Proof.
+    intros gy dx Hg Hd. split; [|split; unfold vneg; rewrite map_length; assumption].
+    rewrite dot_vneg_l, (dot_comm gy (vneg dx)), dot_vneg_l, (dot_comm dx gy). reflexivity.
+  Qed.
 End AdjCore.
